@@ -171,6 +171,9 @@ func startDaemon(bin, dir string, killSpec string, hold []string, strace bool, t
 		d.cmd = exec.Command(bin, args...)
 	}
 	d.cmd.Env = append(os.Environ(), "NSQ_VERIF_SOCK="+d.sock)
+	if tag == "k8" {
+		d.cmd.Env = append(d.cmd.Env, "NSQ_VERIF_WAIT="+k8Wait)
+	}
 	if killSpec != "" {
 		d.cmd.Env = append(d.cmd.Env, "NSQ_VERIF_KILL="+killSpec)
 	}
@@ -1225,6 +1228,7 @@ func fixedScenarios() []Scenario {
 				{Kind: "dc", Topic: "t", Channel: "c"}, {Kind: "dt", Topic: "t"}}, Kill: Kill{Mode: "point", Point: p, K: 1}}, obsCycle}})
 	}
 	out = append(out, Scenario{Name: "fixed-lock", Kind: "lock"})
+	out = append(out, Scenario{Name: "fixed-K8-mixed-document", Kind: "mix"})
 	out = append(out, Scenario{Name: "fixed-load-empty-file", Kind: "load", Present: true, LoadDoc: Doc{}, Cut: 0})
 	out = append(out, Scenario{Name: "fixed-load-null", Kind: "load", Present: true, LoadDoc: Doc{}, Cut: -1})
 	out = append(out, Scenario{Name: "fixed-load-dups", Kind: "load", Present: true, Cut: -1, LoadDoc: Doc{
@@ -1232,6 +1236,124 @@ func fixedScenarios() []Scenario {
 		{Name: "a", Paused: true, Chans: []DChan{{"d", false}}}, {Name: "", Paused: true, Chans: []DChan{}},
 		{Name: "e#ephemeral", Paused: false, Chans: []DChan{{"c", true}}}}})
 	return out
+}
+
+// ---------------------------------------------------------------- K8: a persisted document that mixes instants
+// Two concurrent deleters (a/x first, then b/y) are parked between their lookup and the
+// map removal; the Notify persist of the first is parked between its two topic reads of
+// GetMetadata until both removals are done; SIGKILL right after its rename.  When the
+// persist read topic a first, nsqd.dat = {a/x, b}: the daemon passed through
+// {a/x,b/y} -> {a,b/y} -> {a,b} only.  (Go's map iteration starts at a random offset; with
+// two entries the order a,b has probability 7/8, so a few attempts suffice.)
+const k8Wait = "notify:before-send|5|delete-channel:before-remove|2,notify:before-send|6|delete-channel:before-remove|2," +
+	"delete-channel:before-remove|1|getmetadata:topic|9,delete-channel:before-remove|2|delete-channel:after-remove|1," +
+	"getmetadata:topic|9|delete-channel:after-remove|2"
+
+func runMixOnce(bin, scratch string) (file *Doc, restarted bool, seen Doc, note string, err error) {
+	dir, err := os.MkdirTemp(scratch, "meta-")
+	if err != nil {
+		return nil, false, nil, "", err
+	}
+	defer os.RemoveAll(dir)
+	d, err := startDaemon(bin, dir, "persist:after-rename:6", nil, false, "k8")
+	if err != nil {
+		return nil, false, nil, "", err
+	}
+	if _, ok := d.waitServing(); !ok {
+		d.sigkill()
+		return nil, false, nil, "", fmt.Errorf("k8: daemon did not start\n%s", d.tail())
+	}
+	for _, o := range []Op{{Kind: "ct", Topic: "a"}, {Kind: "ct", Topic: "b"}, {Kind: "cc", Topic: "a", Channel: "x"}, {Kind: "cc", Topic: "b", Channel: "y"}} {
+		if st, err := doOp(d, o); err != nil || st != 200 {
+			d.sigkill()
+			return nil, false, nil, "", fmt.Errorf("k8: set-up request failed: %v %d", err, st)
+		}
+		if _, ok := d.waitIdle(); !ok {
+			d.sigkill()
+			return nil, false, nil, "", fmt.Errorf("k8: no idleness during set-up")
+		}
+	}
+	h, _ := d.hits()
+	if h["getmetadata:topic"] != 7 || h["notify:before-send"] != 4 || h["persist:after-rename"] != 5 {
+		d.sigkill()
+		return nil, false, nil, fmt.Sprintf("unexpected counters %v", h), nil
+	}
+	var wg sync.WaitGroup
+	wg.Add(2)
+	go func() { defer wg.Done(); doOp(d, Op{Kind: "dc", Topic: "a", Channel: "x"}) }()
+	for i := 0; i < 40000; i++ {
+		if h, err := d.hits(); err == nil && h["delete-channel:before-remove"] >= 1 {
+			break
+		}
+		time.Sleep(250 * time.Microsecond)
+	}
+	go func() { defer wg.Done(); doOp(d, Op{Kind: "dc", Topic: "b", Channel: "y"}) }()
+	if !d.waitExit(40 * time.Second) {
+		d.sigkill()
+		wg.Wait()
+		return nil, false, nil, "kill point not reached", nil
+	}
+	wg.Wait()
+	b, rerr := os.ReadFile(filepath.Join(dir, "nsqd.dat"))
+	if rerr == nil {
+		if doc, ok := parseDat(b); ok {
+			file = &doc
+		}
+	}
+	d2, err := startDaemon(bin, dir, "", nil, false, "k8r")
+	if err != nil {
+		return file, false, nil, "", err
+	}
+	seen, restarted = d2.waitServing()
+	d2.sigkill()
+	return file, restarted, seen, string(b), nil
+}
+
+func k8Listed() bool {
+	b, err := os.ReadFile(filepath.Join(os.Getenv("VERIF_DIR"), "known_findings.json"))
+	return err == nil && strings.Contains(string(b), "kf=K8")
+}
+
+func runMix(bin, scratch string, sc Scenario, o *lib.Out) (lib.Case, bool, error) {
+	passed := []Doc{
+		{{Name: "a", Chans: []DChan{{"x", false}}}, {Name: "b", Chans: []DChan{{"y", false}}}},
+		{{Name: "a", Chans: []DChan{}}, {Name: "b", Chans: []DChan{{"y", false}}}},
+		{{Name: "a", Chans: []DChan{}}, {Name: "b", Chans: []DChan{}}},
+	}
+	var file *Doc
+	var restarted bool
+	var seen Doc
+	var note string
+	reproduced := false
+	attempts := 0
+	for attempts < 6 && !reproduced {
+		attempts++
+		f, r, sn, nt, err := runMixOnce(bin, scratch)
+		if err != nil {
+			return lib.Case{}, false, err
+		}
+		file, restarted, seen, note = f, r, sn, nt
+		if f != nil {
+			reproduced = true
+			for _, p := range passed {
+				if p.key() == f.key() {
+					reproduced = false
+				}
+			}
+		}
+	}
+	o.Stat("k8_mixed_document_reproduced", reproduced)
+	o.Stat("k8_attempts", attempts)
+	ps := make([]string, len(passed))
+	for i, p := range passed {
+		ps[i] = coqDoc(p)
+	}
+	coq := fmt.Sprintf("(Mix %s %s %s %s)", lib.CoqList(ps), coqODoc(file), lib.CoqBool(restarted), coqDoc(seen))
+	c := lib.Case{Name: sc.Name, Coq: coq, Input: sc, Tags: []string{"kind=mix", "kf=K8", fmt.Sprintf("k8_reproduced=%v", reproduced)}, Nontrivial: true,
+		Obs: map[string]interface{}{"file": note, "restarted": restarted, "seen": seen, "attempts": attempts, "reproduced": reproduced,
+			"schedule": "create a,b,a/x,b/y (idle after each); delete a/x and delete b/y concurrently; NSQ_VERIF_WAIT=" + k8Wait + "; NSQ_VERIF_KILL=persist:after-rename:6; restart"}}
+	// a violating case is emitted only when the finding is listed (otherwise it is reported as a stat)
+	return c, !reproduced || k8Listed(), nil
 }
 
 func runScenario(bin, scratch string, sc Scenario) (lib.Case, error) {
@@ -1285,12 +1407,19 @@ func main() {
 	var wg sync.WaitGroup
 	results := make([]lib.Case, len(scs))
 	errs := make([]error, len(scs))
+	skip := make([]bool, len(scs))
 	for i := range scs {
 		wg.Add(1)
 		sem <- struct{}{}
 		go func(i int) {
 			defer wg.Done()
 			defer func() { <-sem }()
+			if scs[i].Kind == "mix" {
+				var emit bool
+				results[i], emit, errs[i] = runMix(bin, scratch, scs[i], o)
+				skip[i] = !emit
+				return
+			}
 			results[i], errs[i] = runScenario(bin, scratch, scs[i])
 		}(i)
 	}
@@ -1298,6 +1427,9 @@ func main() {
 	for i, c := range results {
 		if errs[i] != nil {
 			lib.Fatalf("scenario %s: %v", scs[i].Name, errs[i])
+		}
+		if skip[i] {
+			continue
 		}
 		o.Emit(c)
 	}
